@@ -18,6 +18,7 @@ shim.install()
 
 NPDT = {"f32": np.float32, "f64": np.float64, "c64": np.complex64, "c128": np.complex128}
 EXTRA = 3   # max_iters runs over 1 .. n + EXTRA for catalog cases
+SCALES = (1e-9, 1e-30, 1e6, 2.0 ** -20)   # operator factors of the scale-equivariance family
 
 
 # ------------------------------------------------------------------------------------------------------
@@ -460,7 +461,8 @@ def run_models(prop, wd, tier):
     stats = {"states": res.distinct + res2.distinct, "transitions": res.states + res2.states,
              "mc_krylov_states": res.distinct, "mc_loopcontrol_states": res2.distinct,
              "tlc_wall_s": round(res.wall + res2.wall, 1), "catalog_cases": len(cs),
-             "catalog_matrices": len(matrices())}
+             "catalog_matrices": len(matrices()),
+             "scale_equivariant_cases": 2 * len([c for c in cs if c.get("exact")])}
     return cs, stats
 
 
